@@ -1,3 +1,4 @@
+import errno
 import logging
 import os
 import stat
@@ -110,6 +111,20 @@ def _create_files(  # noqa: C901, PLR0912, PLR0913
 
         if links is None and isinstance(storage_obj, ObjectStorage):
             links = storage_obj.odb.cache_types
+
+        if links and "symlink" in links:
+            # NOTE: symlinking succeeds even when the source is missing, so
+            # check the sources explicitly to report them instead of leaving
+            # dangling links behind.
+            found = src_fs.exists(list(src_paths), batch_size=jobs)
+            for src_path, dest_path, exists in zip(src_paths, dest_paths, found):
+                if not exists:
+                    exc = FileNotFoundError(errno.ENOENT, os.strerror(errno.ENOENT))
+                    onerror(src_path, dest_path, exc)
+            args = [arg for arg, exists in zip(args, found) if exists]
+            if not args:
+                continue
+            entries, src_paths, dest_paths = zip(*args)
 
         transfer(
             src_fs,
